@@ -3,7 +3,7 @@
     witness. *)
 From Coq Require Import String Ascii List Bool Arith ZArith.
 From Raven Require Import Base.GoStr Base.GoStrZ Model.SeqSet Model.Expunge Spec.SeqSet Spec.SeqSetFindings
-  Proof.SeqSetStr Proof.SeqSetParse Proof.ExpungeReplay Proof.C09Findings Proof.JunkStore.
+  Proof.SeqSetStr Proof.SeqSetParse Proof.ExpungeReplay Proof.C09Findings Proof.JunkStore Proof.DeletedWord.
 Import ListNotations.
 Local Open Scope Z_scope.
 
@@ -40,14 +40,20 @@ Theorem c09_uid_expunge_replay : forall (set : str) (mbox : list msg),
 Proof. exact uid_expunge_replay. Qed.
 Print Assumptions c09_uid_expunge_replay.
 
-(** ... and outside class deleted_case (the SQL whole-word test is exact about case) the \Deleted test is the flag atom *)
+(** ... and the SQL test is the \Deleted flag atom (case-insensitive) whenever
+    the stored flag strings use the single blank as their only white space *)
 Theorem c09_expunge_exact_deleted : forall mbox : list msg,
-  NoDup (map m_id mbox) -> classify_expunge mbox = None ->
+  NoDup (map m_id mbox) -> flags_blank_ws mbox = true ->
   snd (handle_expunge mbox) = filter (fun m => negb (has_deleted (m_flags m))) mbox
   /\ handle_close mbox = filter (fun m => negb (has_deleted (m_flags m))) mbox
   /\ replay (fst (handle_expunge mbox)) mbox = snd (handle_expunge mbox).
 Proof. exact expunge_exact_deleted. Qed.
 Print Assumptions c09_expunge_exact_deleted.
+
+Theorem c09_sql_deleted_is_flag_atom : forall flags : str,
+  blank_ws flags = true -> sql_deleted flags = has_deleted flags.
+Proof. exact sql_deleted_is_flag_atom. Qed.
+Print Assumptions c09_sql_deleted_is_flag_atom.
 
 (** (a) the listings describe one mailbox: SEARCH ALL = 1..EXISTS, FETCH 1:*
     = rows numbered from 1, UID FETCH's rank is the position *)
@@ -163,15 +169,6 @@ Theorem c09_refuted_uidsearch_shape : exists s uids,
 Proof. exists [One (Num 2)], [1;2;3]. vm_compute. repeat split; reflexivity. Qed.
 Print Assumptions c09_refuted_uidsearch_shape.
 
-Theorem c09_refuted_deleted_case : exists mbox,
-  NoDup (map m_id mbox) /\ classify_expunge mbox = Some F_deleted_case
-  /\ snd (handle_expunge mbox) = mbox /\ filter (fun m => negb (has_deleted (m_flags m))) mbox = [] /\ mbox <> [].
-Proof.
-  exists [{| m_id := 1; m_uid := 1; m_flags := S_ "\deleted" |}].
-  split; [repeat constructor; simpl; tauto|]. vm_compute. repeat split; try reflexivity. discriminate.
-Qed.
-Print Assumptions c09_refuted_deleted_case.
-
 Theorem c09_refuted_noop_notices : exists old new,
   classify_noop old new = Some F_noop_notices /\ noop_ok old new = false.
 Proof. exists [1;2;3], [2;3]. vm_compute. split; reflexivity. Qed.
@@ -187,6 +184,7 @@ Proof. vm_compute. split; reflexivity. Qed.
 
 Example c09_regression_deletedx_not_selected :
   sql_deleted (S_ "\DeletedX") = false /\ sql_deleted (S_ "\Seen \Deleted") = true
+  /\ sql_deleted (S_ "\Seen \DELETED") = true /\ sql_deleted (S_ "\deleted") = true
   /\ (let mb := [{| m_id := 1; m_uid := 1; m_flags := [] |}; {| m_id := 2; m_uid := 2; m_flags := [] |}; {| m_id := 3; m_uid := 3; m_flags := [] |}] in
       handle_store_junk (S_ "1:2") mb = ([1; 1], [1; 2], [{| m_id := 3; m_uid := 3; m_flags := [] |}])).
 Proof. vm_compute. repeat split; reflexivity. Qed.
@@ -201,7 +199,7 @@ Proof. vm_compute. split; reflexivity. Qed.
 Example c09_expunge_example :
   let mb := [{| m_id := 10; m_uid := 2; m_flags := S_ "\Deleted" |}; {| m_id := 11; m_uid := 5; m_flags := S_ "\Seen" |};
              {| m_id := 12; m_uid := 9; m_flags := S_ "\Seen \Deleted" |}] in
-  fst (handle_expunge mb) = [1; 2] /\ map m_uid (snd (handle_expunge mb)) = [5] /\ classify_expunge mb = None.
+  fst (handle_expunge mb) = [1; 2] /\ map m_uid (snd (handle_expunge mb)) = [5] /\ flags_blank_ws mb = true.
 Proof. vm_compute. repeat split; reflexivity. Qed.
 Example c09_history_example :
   map m_uid (rows (run_history [HAppend []; HAppend (S_ "\Deleted"); HAppend []; HExpunge; HCopyIn []; HAppend []])) = [1; 3; 4; 5].
